@@ -1,62 +1,76 @@
-(* Lemmas about popResponders / flush used by C05 (and C01). *)
+(* Lemmas about popResponders / flush used by C05 (and C01, C02). *)
 From Coq Require Import List NArith Bool Lia.
 From Gluon Require Import Model.Responders.
 Import ListNotations.
 Open Scope N_scope.
 
 (* ---------- pop_go, permit = true ---------- *)
-Lemma pop_go_true skip rs : pop_go true skip rs = (rs, []).
+Lemma pop_go_true skip readd rs : pop_go true skip readd rs = (rs, []).
 Proof. induction rs as [|r t IH]; cbn [pop_go]; [reflexivity|]. rewrite IH. reflexivity. Qed.
 
+(* one step of pop_go false, as a case analysis that the lemmas below share *)
+Inductive pop_step (r : responder) (skip readd : list msgid) : list msgid -> list msgid -> bool -> Prop :=
+| ps_expunge m : r = RExpunge m -> pop_step r skip readd (m :: skip) readd false
+| ps_exists_held m u f tg og : r = RExists m u f tg og -> existsb (N.eqb m) skip = true ->
+    pop_step r skip readd (filter (fun x => negb (x =? m)) skip) (m :: readd) false
+| ps_exists_pop m u f tg og : r = RExists m u f tg og -> existsb (N.eqb m) skip = false ->
+    pop_step r skip readd skip readd true
+| ps_fetch_held m f op au si fo : r = RFetch m f op au si fo -> existsb (N.eqb m) readd = true ->
+    pop_step r skip readd skip readd false
+| ps_fetch_pop m f op au si fo : r = RFetch m f op au si fo -> existsb (N.eqb m) readd = false ->
+    pop_step r skip readd skip readd true.
+
+Lemma pop_go_cons r t skip readd p q : pop_go false skip readd (r :: t) = (p, q) ->
+  exists skip' readd' popped p' q',
+    pop_step r skip readd skip' readd' popped /\ pop_go false skip' readd' t = (p', q') /\
+    p = (if popped then r :: p' else p') /\ q = (if popped then q' else r :: q').
+Proof.
+  cbn [pop_go]. destruct r as [m u f tg og | m | m f op au si fo].
+  - destruct (existsb (N.eqb m) skip) eqn:E.
+    + destruct (pop_go false _ _ t) as [p' q'] eqn:E'. intros H. injection H as <- <-.
+      eexists _, _, false, p', q'. split; [eapply ps_exists_held; [reflexivity|exact E]|]. split; [exact E'|split; reflexivity].
+    + destruct (pop_go false _ _ t) as [p' q'] eqn:E'. intros H. injection H as <- <-.
+      eexists _, _, true, p', q'. split; [eapply ps_exists_pop; [reflexivity|exact E]|]. split; [exact E'|split; reflexivity].
+  - destruct (pop_go false _ _ t) as [p' q'] eqn:E'. intros H. injection H as <- <-.
+    eexists _, _, false, p', q'. split; [eapply ps_expunge; reflexivity|]. split; [exact E'|split; reflexivity].
+  - destruct (existsb (N.eqb m) readd) eqn:E.
+    + destruct (pop_go false _ _ t) as [p' q'] eqn:E'. intros H. injection H as <- <-.
+      eexists _, _, false, p', q'. split; [eapply ps_fetch_held; [reflexivity|exact E]|]. split; [exact E'|split; reflexivity].
+    + destruct (pop_go false _ _ t) as [p' q'] eqn:E'. intros H. injection H as <- <-.
+      eexists _, _, true, p', q'. split; [eapply ps_fetch_pop; [reflexivity|exact E]|]. split; [exact E'|split; reflexivity].
+Qed.
+
 (* ---------- pop_go, permit = false ---------- *)
-Lemma pop_go_false_no_expunge rs : forall skip p q, pop_go false skip rs = (p, q) ->
+Lemma pop_go_false_no_expunge rs : forall skip readd p q, pop_go false skip readd rs = (p, q) ->
   forall r, In r p -> is_rexpunge r = false.
 Proof.
-  induction rs as [|r t IH]; intros skip p q H x Hx; cbn [pop_go] in H.
-  - injection H as <- <-. destruct Hx.
-  - destruct r as [m u f tg og | m | m f op au si fo].
-    + destruct (existsb (N.eqb m) skip).
-      * destruct (pop_go false (filter (fun x => negb (x =? m)) skip) t) as [p' q'] eqn:E.
-        injection H as <- <-. eapply IH; eauto.
-      * destruct (pop_go false skip t) as [p' q'] eqn:E. injection H as <- <-.
-        destruct Hx as [<-|Hx]; [reflexivity|]. eapply IH; eauto.
-    + destruct (pop_go false (m :: skip) t) as [p' q'] eqn:E. injection H as <- <-. eapply IH; eauto.
-    + destruct (pop_go false skip t) as [p' q'] eqn:E. injection H as <- <-.
-      destruct Hx as [<-|Hx]; [reflexivity|]. eapply IH; eauto.
+  induction rs as [|r t IH]; intros skip readd p q H x Hx.
+  - cbn [pop_go] in H. injection H as <- <-. destruct Hx.
+  - apply pop_go_cons in H as (skip' & readd' & popped & p' & q' & Hs & E & -> & ->).
+    destruct popped; [|eapply IH; eauto].
+    destruct Hx as [<-|Hx]; [|eapply IH; eauto].
+    inversion Hs; subst; try discriminate; reflexivity.
 Qed.
 
-Lemma pop_go_false_keeps_expunges rs : forall skip p q, pop_go false skip rs = (p, q) ->
+Lemma pop_go_false_keeps_expunges rs : forall skip readd p q, pop_go false skip readd rs = (p, q) ->
   filter is_rexpunge q = filter is_rexpunge rs.
 Proof.
-  induction rs as [|r t IH]; intros skip p q H; cbn [pop_go] in H.
-  - injection H as <- <-. reflexivity.
-  - destruct r as [m u f tg og | m | m f op au si fo].
-    + destruct (existsb (N.eqb m) skip).
-      * destruct (pop_go false (filter (fun x => negb (x =? m)) skip) t) as [p' q'] eqn:E.
-        injection H as <- <-. cbn. eapply IH; eauto.
-      * destruct (pop_go false skip t) as [p' q'] eqn:E. injection H as <- <-. cbn. eapply IH; eauto.
-    + destruct (pop_go false (m :: skip) t) as [p' q'] eqn:E. injection H as <- <-. cbn. f_equal. eapply IH; eauto.
-    + destruct (pop_go false skip t) as [p' q'] eqn:E. injection H as <- <-. cbn. eapply IH; eauto.
+  induction rs as [|r t IH]; intros skip readd p q H.
+  - cbn [pop_go] in H. injection H as <- <-. reflexivity.
+  - apply pop_go_cons in H as (skip' & readd' & popped & p' & q' & Hs & E & -> & ->).
+    specialize (IH _ _ _ _ E). inversion Hs; subst; cbn [filter is_rexpunge]; try (f_equal; exact IH); exact IH.
 Qed.
 
-(* popped ++ remaining is a permutation that keeps every responder: nothing is lost, nothing invented *)
-Lemma pop_go_partition permit rs : forall skip p q, pop_go permit skip rs = (p, q) ->
+(* popped ++ remaining keeps every responder: nothing is lost, nothing invented *)
+Lemma pop_go_partition permit rs : forall skip readd p q, pop_go permit skip readd rs = (p, q) ->
   forall r, In r rs <-> In r p \/ In r q.
 Proof.
   destruct permit.
-  - intros skip p q H r. rewrite pop_go_true in H. injection H as <- <-. cbn. tauto.
-  - induction rs as [|x t IH]; intros skip p q H r; cbn [pop_go] in H.
-    + injection H as <- <-. cbn. tauto.
-    + destruct x as [m u f tg og | m | m f op au si fo].
-      * destruct (existsb (N.eqb m) skip).
-        -- destruct (pop_go false (filter (fun x => negb (x =? m)) skip) t) as [p' q'] eqn:E.
-           injection H as <- <-. cbn [In]. rewrite (IH _ _ _ E r). tauto.
-        -- destruct (pop_go false skip t) as [p' q'] eqn:E. injection H as <- <-.
-           cbn [In]. rewrite (IH _ _ _ E r). tauto.
-      * destruct (pop_go false (m :: skip) t) as [p' q'] eqn:E. injection H as <- <-.
-        cbn [In]. rewrite (IH _ _ _ E r). tauto.
-      * destruct (pop_go false skip t) as [p' q'] eqn:E. injection H as <- <-.
-        cbn [In]. rewrite (IH _ _ _ E r). tauto.
+  - intros skip readd p q H r. rewrite pop_go_true in H. injection H as <- <-. cbn. tauto.
+  - induction rs as [|x t IH]; intros skip readd p q H r.
+    + cbn [pop_go] in H. injection H as <- <-. cbn. tauto.
+    + apply pop_go_cons in H as (skip' & readd' & popped & p' & q' & Hs & E & -> & ->).
+      specialize (IH _ _ _ _ E r). destruct popped; cbn [In]; rewrite IH; tauto.
 Qed.
 
 (* ---------- per-message order: an exists is never popped ahead of an earlier expunge of the same message ---------- *)
@@ -95,59 +109,29 @@ Qed.
 
 (* state S1: m is in the skip set. Everything about m stays in the remainder, provided alternation holds and,
    after the (held) exists, the next thing about m is an expunge. *)
-Lemma pop_held_all m rs : forall skip p q,
+Lemma pop_held_all m rs : forall skip readd p q,
   existsb (N.eqb m) skip = true -> alt m rs ->
-  pop_go false skip rs = (p, q) ->
+  pop_go false skip readd rs = (p, q) ->
   filter (about m) p = [] /\ filter (about m) q = filter (about m) rs.
 Proof.
   (* strengthen: two states, S1 (m in skip) and S2 (m not in skip, last thing about m was a held exists, so the
      next thing about m must be an expunge) *)
-  assert (G: forall rs skip p q,
+  assert (G: forall rs skip readd p q,
      alt m rs ->
      (existsb (N.eqb m) skip = true \/
       (existsb (N.eqb m) skip = false /\ match filter (about m) rs with [] => True | y :: _ => is_rexpunge y = true end)) ->
-     pop_go false skip rs = (p, q) ->
+     pop_go false skip readd rs = (p, q) ->
      filter (about m) p = [] /\ filter (about m) q = filter (about m) rs).
-  { clear rs. induction rs as [|r t IH]; intros skip p q Halt Hst H; cbn [pop_go] in H.
-    - injection H as <- <-. split; reflexivity.
-    - destruct r as [m' u f tg og | m' | m' f op au si fo].
-      + (* exists *)
-        destruct (N.eqb_spec m' m) as [->|Hne].
-        * (* about m *)
-          unfold alt in Halt. cbn [filter about] in Halt. rewrite N.eqb_refl in Halt. cbn [alt_seq] in Halt.
-          destruct Halt as [Hnext Halt'].
-          destruct Hst as [Hin|[Hout Hexp]].
-          -- rewrite Hin in H.
-             destruct (pop_go false (filter (fun x => negb (x =? m)) skip) t) as [p' q'] eqn:E.
-             injection H as <- <-.
-             assert (St: existsb (N.eqb m) (filter (fun x => negb (x =? m)) skip) = false) by apply skip_filter_self.
-             destruct (IH _ _ _ Halt' (or_intror (conj St (Hnext eq_refl))) E) as [A B].
-             split; [exact A|]. cbn [filter about]. rewrite N.eqb_refl. f_equal. exact B.
-          -- cbn [filter about] in Hexp. rewrite N.eqb_refl in Hexp. discriminate.
-        * (* not about m *)
-          assert (Halt': alt m t).
-          { unfold alt in *. cbn [filter about] in Halt. destruct (N.eqb_spec m' m); [congruence|]. exact Halt. }
-          assert (Hf: filter (about m) (RExists m' u f tg og :: t) = filter (about m) t).
-          { cbn [filter about]. destruct (N.eqb_spec m' m); [congruence|]. reflexivity. }
-          destruct (existsb (N.eqb m') skip).
-          -- destruct (pop_go false (filter (fun x => negb (x =? m')) skip) t) as [p' q'] eqn:E.
-             injection H as <- <-.
-             assert (St: existsb (N.eqb m) (filter (fun x => negb (x =? m')) skip) = existsb (N.eqb m) skip)
-               by (apply skip_filter_other; exact Hne).
-             rewrite Hf in Hst |- *.
-             destruct (IH _ _ _ Halt' (ltac:(rewrite St; exact Hst)) E) as [A B].
-             split; [exact A|]. cbn [filter about]. destruct (N.eqb_spec m' m); [congruence|]. exact B.
-          -- destruct (pop_go false skip t) as [p' q'] eqn:E. injection H as <- <-.
-             rewrite Hf in Hst |- *.
-             destruct (IH _ _ _ Halt' Hst E) as [A B].
-             split; [|exact B]. cbn [filter about]. destruct (N.eqb_spec m' m); [congruence|]. exact A.
+  { clear rs. induction rs as [|r t IH]; intros skip readd p q Halt Hst H.
+    - cbn [pop_go] in H. injection H as <- <-. split; reflexivity.
+    - apply pop_go_cons in H as (skip' & readd' & popped & p' & q' & Hs & E & -> & ->).
+      inversion Hs as [m' Hr | m' u f tg og Hr Hin' | m' u f tg og Hr Hin' | m' f op au si fo Hr Hin' | m' f op au si fo Hr Hin']; subst.
       + (* expunge *)
-        destruct (pop_go false (m' :: skip) t) as [p' q'] eqn:E. injection H as <- <-.
         destruct (N.eqb_spec m' m) as [->|Hne].
         * unfold alt in Halt. cbn [filter about] in Halt. rewrite N.eqb_refl in Halt. cbn [alt_seq] in Halt.
           destruct Halt as [_ Halt'].
           assert (St: existsb (N.eqb m) (m :: skip) = true) by (cbn; rewrite N.eqb_refl; reflexivity).
-          destruct (IH _ _ _ Halt' (or_introl St) E) as [A B].
+          destruct (IH _ _ _ _ Halt' (or_introl St) E) as [A B].
           split; [exact A|]. cbn [filter about]. rewrite N.eqb_refl. f_equal. exact B.
         * assert (Halt': alt m t).
           { unfold alt in *. cbn [filter about] in Halt. destruct (N.eqb_spec m' m); [congruence|]. exact Halt. }
@@ -156,61 +140,182 @@ Proof.
           assert (St: existsb (N.eqb m) (m' :: skip) = existsb (N.eqb m) skip).
           { cbn [existsb]. destruct (N.eqb_spec m m'); [congruence|]. reflexivity. }
           rewrite Hf in Hst |- *.
-          destruct (IH _ _ _ Halt' (ltac:(rewrite St; exact Hst)) E) as [A B].
+          destruct (IH _ _ _ _ Halt' (ltac:(rewrite St; exact Hst)) E) as [A B].
           split; [exact A|]. cbn [filter about]. destruct (N.eqb_spec m' m); [congruence|]. exact B.
-      + (* fetch *)
-        destruct (pop_go false skip t) as [p' q'] eqn:E. injection H as <- <-.
-        assert (Halt': alt m t) by exact Halt.
-        destruct (IH _ _ _ Halt' Hst E) as [A B]. split; [exact A|exact B]. }
-  intros skip p q Hin Halt H. exact (G rs skip p q Halt (or_introl Hin) H).
+      + (* exists, held *)
+        destruct (N.eqb_spec m' m) as [->|Hne].
+        * unfold alt in Halt. cbn [filter about] in Halt. rewrite N.eqb_refl in Halt. cbn [alt_seq] in Halt.
+          destruct Halt as [Hnext Halt'].
+          assert (St: existsb (N.eqb m) (filter (fun x => negb (x =? m)) skip) = false) by apply skip_filter_self.
+          destruct (IH _ _ _ _ Halt' (or_intror (conj St (Hnext eq_refl))) E) as [A B].
+          split; [exact A|]. cbn [filter about]. rewrite N.eqb_refl. f_equal. exact B.
+        * assert (Halt': alt m t).
+          { unfold alt in *. cbn [filter about] in Halt. destruct (N.eqb_spec m' m); [congruence|]. exact Halt. }
+          assert (Hf: filter (about m) (RExists m' u f tg og :: t) = filter (about m) t).
+          { cbn [filter about]. destruct (N.eqb_spec m' m); [congruence|]. reflexivity. }
+          assert (St: existsb (N.eqb m) (filter (fun x => negb (x =? m')) skip) = existsb (N.eqb m) skip)
+            by (apply skip_filter_other; exact Hne).
+          rewrite Hf in Hst |- *.
+          destruct (IH _ _ _ _ Halt' (ltac:(rewrite St; exact Hst)) E) as [A B].
+          split; [exact A|]. cbn [filter about]. destruct (N.eqb_spec m' m); [congruence|]. exact B.
+      + (* exists, popped *)
+        destruct (N.eqb_spec m' m) as [->|Hne].
+        * destruct Hst as [Hin|[Hout Hexp]]; [congruence|].
+          cbn [filter about] in Hexp. rewrite N.eqb_refl in Hexp. discriminate.
+        * assert (Halt': alt m t).
+          { unfold alt in *. cbn [filter about] in Halt. destruct (N.eqb_spec m' m); [congruence|]. exact Halt. }
+          assert (Hf: filter (about m) (RExists m' u f tg og :: t) = filter (about m) t).
+          { cbn [filter about]. destruct (N.eqb_spec m' m); [congruence|]. reflexivity. }
+          rewrite Hf in Hst |- *.
+          destruct (IH _ _ _ _ Halt' Hst E) as [A B].
+          split; [|exact B]. cbn [filter about]. destruct (N.eqb_spec m' m); [congruence|]. exact A.
+      + (* fetch, held *)
+        destruct (IH _ _ _ _ Halt Hst E) as [A B]. split; [exact A|exact B].
+      + (* fetch, popped *)
+        destruct (IH _ _ _ _ Halt Hst E) as [A B]. split; [exact A|exact B]. }
+  intros skip readd p q Hin Halt H. exact (G rs skip readd p q Halt (or_introl Hin) H).
 Qed.
 
-(* From the empty skip set: what is popped about m is a prefix of the per-message sequence, and it stops at the first
+(* From a skip set without m: what is popped about m is a prefix of the per-message sequence, and it stops at the first
    expunge of m. Hence an exists of m is never handled before an expunge of m that was queued earlier. *)
-Lemma pop_prefix m rs : forall skip p q,
+Lemma pop_prefix m rs : forall skip readd p q,
   existsb (N.eqb m) skip = false -> alt m rs ->
-  pop_go false skip rs = (p, q) ->
+  pop_go false skip readd rs = (p, q) ->
   filter (about m) p ++ filter (about m) q = filter (about m) rs /\
   (forall r, In r (filter (about m) p) -> is_rexpunge r = false).
 Proof.
-  induction rs as [|r t IH]; intros skip p q Hout Halt H; cbn [pop_go] in H.
-  - injection H as <- <-. split; [reflexivity|intros r []].
-  - destruct r as [m' u f tg og | m' | m' f op au si fo].
-    + destruct (N.eqb_spec m' m) as [->|Hne].
-      * rewrite Hout in H. destruct (pop_go false skip t) as [p' q'] eqn:E. injection H as <- <-.
-        unfold alt in Halt. cbn [filter about] in Halt. rewrite N.eqb_refl in Halt. cbn [alt_seq] in Halt.
-        destruct Halt as [_ Halt'].
-        destruct (IH _ _ _ Hout Halt' E) as [A B].
-        cbn [filter about]. rewrite N.eqb_refl. split; [cbn; f_equal; exact A|].
-        intros r [<-|Hr]; [reflexivity|apply B; exact Hr].
-      * assert (Halt': alt m t).
-        { unfold alt in *. cbn [filter about] in Halt. destruct (N.eqb_spec m' m); [congruence|]. exact Halt. }
-        destruct (existsb (N.eqb m') skip).
-        -- destruct (pop_go false (filter (fun x => negb (x =? m')) skip) t) as [p' q'] eqn:E.
-           injection H as <- <-.
-           assert (St: existsb (N.eqb m) (filter (fun x => negb (x =? m')) skip) = false)
-             by (rewrite skip_filter_other by exact Hne; exact Hout).
-           destruct (IH _ _ _ St Halt' E) as [A B].
-           cbn [filter about]. destruct (N.eqb_spec m' m); [congruence|]. split; [exact A|exact B].
-        -- destruct (pop_go false skip t) as [p' q'] eqn:E. injection H as <- <-.
-           destruct (IH _ _ _ Hout Halt' E) as [A B].
-           cbn [filter about]. destruct (N.eqb_spec m' m); [congruence|]. split; [exact A|exact B].
-    + destruct (pop_go false (m' :: skip) t) as [p' q'] eqn:E. injection H as <- <-.
+  induction rs as [|r t IH]; intros skip readd p q Hout Halt H.
+  - cbn [pop_go] in H. injection H as <- <-. split; [reflexivity|intros r []].
+  - apply pop_go_cons in H as (skip' & readd' & popped & p' & q' & Hs & E & -> & ->).
+    inversion Hs as [m' Hr | m' u f tg og Hr Hin' | m' u f tg og Hr Hin' | m' f op au si fo Hr Hin' | m' f op au si fo Hr Hin']; subst.
+    + (* expunge *)
       destruct (N.eqb_spec m' m) as [->|Hne].
       * unfold alt in Halt. cbn [filter about] in Halt. rewrite N.eqb_refl in Halt. cbn [alt_seq] in Halt.
         destruct Halt as [_ Halt'].
         assert (St: existsb (N.eqb m) (m :: skip) = true) by (cbn; rewrite N.eqb_refl; reflexivity).
-        destruct (pop_held_all m t _ _ _ St Halt' E) as [A B].
+        destruct (pop_held_all m t _ _ _ _ St Halt' E) as [A B].
         cbn [filter about]. rewrite N.eqb_refl. rewrite A. cbn [app]. split; [f_equal; exact B|intros r []].
       * assert (Halt': alt m t).
         { unfold alt in *. cbn [filter about] in Halt. destruct (N.eqb_spec m' m); [congruence|]. exact Halt. }
         assert (St: existsb (N.eqb m) (m' :: skip) = false).
         { cbn [existsb]. destruct (N.eqb_spec m m'); [congruence|]. exact Hout. }
-        destruct (IH _ _ _ St Halt' E) as [A B].
+        destruct (IH _ _ _ _ St Halt' E) as [A B].
         cbn [filter about]. destruct (N.eqb_spec m' m); [congruence|]. split; [exact A|exact B].
-    + destruct (pop_go false skip t) as [p' q'] eqn:E. injection H as <- <-.
-      destruct (IH _ _ _ Hout Halt E) as [A B]. cbn [filter about]. split; [exact A|exact B].
+    + (* exists, held: m' is in skip, so m' <> m *)
+      assert (Hne : m' <> m) by (intros ->; congruence).
+      assert (Halt': alt m t).
+      { unfold alt in *. cbn [filter about] in Halt. destruct (N.eqb_spec m' m); [congruence|]. exact Halt. }
+      assert (St: existsb (N.eqb m) (filter (fun x => negb (x =? m')) skip) = false)
+        by (rewrite skip_filter_other by exact Hne; exact Hout).
+      destruct (IH _ _ _ _ St Halt' E) as [A B].
+      cbn [filter about]. destruct (N.eqb_spec m' m); [congruence|]. split; [exact A|exact B].
+    + (* exists, popped *)
+      destruct (N.eqb_spec m' m) as [->|Hne].
+      * unfold alt in Halt. cbn [filter about] in Halt. rewrite N.eqb_refl in Halt. cbn [alt_seq] in Halt.
+        destruct Halt as [_ Halt'].
+        destruct (IH _ _ _ _ Hout Halt' E) as [A B].
+        cbn [filter about]. rewrite N.eqb_refl. split; [cbn; f_equal; exact A|].
+        intros r [<-|Hr]; [reflexivity|apply B; exact Hr].
+      * assert (Halt': alt m t).
+        { unfold alt in *. cbn [filter about] in Halt. destruct (N.eqb_spec m' m); [congruence|]. exact Halt. }
+        destruct (IH _ _ _ _ Hout Halt' E) as [A B].
+        cbn [filter about]. destruct (N.eqb_spec m' m); [congruence|]. split; [exact A|exact B].
+    + destruct (IH _ _ _ _ Hout Halt E) as [A B]. cbn [filter about]. split; [exact A|exact B].
+    + destruct (IH _ _ _ _ Hout Halt E) as [A B]. cbn [filter about]. split; [exact A|exact B].
 Qed.
+
+(* ---------- a flag change of a re-added message waits behind the held exists ---------- *)
+Definition is_fetch_of (m : msgid) (r : responder) : bool :=
+  match r with RFetch m' _ _ _ _ _ => m' =? m | _ => false end.
+
+(* once m is in readd, no flag change of m is popped *)
+Lemma pop_readd_holds_fetches m rs : forall skip readd p q,
+  existsb (N.eqb m) readd = true -> pop_go false skip readd rs = (p, q) ->
+  forall r, In r p -> is_fetch_of m r = false.
+Proof.
+  induction rs as [|r t IH]; intros skip readd p q Hin H x Hx.
+  - cbn [pop_go] in H. injection H as <- <-. destruct Hx.
+  - apply pop_go_cons in H as (skip' & readd' & popped & p' & q' & Hs & E & -> & ->).
+    assert (Hin' : existsb (N.eqb m) readd' = true).
+    { inversion Hs; subst; try exact Hin. cbn [existsb]. rewrite Hin. apply orb_true_r. }
+    destruct popped; [|eapply IH; eauto].
+    destruct Hx as [<-|Hx]; [|eapply IH; eauto].
+    inversion Hs as [m' Hr | m' u f tg og Hr Hh | m' u f tg og Hr Hh | m' f op au si fo Hr Hh | m' f op au si fo Hr Hh]; subst; try reflexivity.
+    cbn [is_fetch_of]. destruct (N.eqb_spec m' m) as [->|]; [congruence|reflexivity].
+Qed.
+
+Lemma pop_readd_keeps_fetches m rs : forall skip readd p q,
+  existsb (N.eqb m) readd = true -> pop_go false skip readd rs = (p, q) ->
+  filter (is_fetch_of m) q = filter (is_fetch_of m) rs.
+Proof.
+  induction rs as [|r t IH]; intros skip readd p q Hin H.
+  - cbn [pop_go] in H. injection H as <- <-. reflexivity.
+  - apply pop_go_cons in H as (skip' & readd' & popped & p' & q' & Hs & E & -> & ->).
+    assert (Hin' : existsb (N.eqb m) readd' = true).
+    { inversion Hs; subst; try exact Hin. cbn [existsb]. rewrite Hin. apply orb_true_r. }
+    specialize (IH _ _ _ _ Hin' E).
+    inversion Hs as [m' Hr | m' u f tg og Hr Hh | m' u f tg og Hr Hh | m' f op au si fo Hr Hh | m' f op au si fo Hr Hh]; subst;
+      cbn [filter is_fetch_of]; try exact IH.
+    + destruct (m' =? m); [f_equal|]; exact IH.
+    + destruct (N.eqb_spec m' m) as [->|]; [congruence|exact IH].
+Qed.
+
+(* the bookkeeping of pop_go false after a prefix of the queue *)
+Fixpoint pop_state (skip readd : list msgid) (rs : list responder) : list msgid * list msgid :=
+  match rs with
+  | [] => (skip, readd)
+  | RExpunge m :: t => pop_state (m :: skip) readd t
+  | RExists m _ _ _ _ :: t =>
+      if existsb (N.eqb m) skip then pop_state (filter (fun x => negb (x =? m)) skip) (m :: readd) t
+      else pop_state skip readd t
+  | RFetch _ _ _ _ _ _ :: t => pop_state skip readd t
+  end.
+
+Lemma pop_go_app pre : forall post skip readd,
+  pop_go false skip readd (pre ++ post)
+  = let '(p1, q1) := pop_go false skip readd pre in
+    let '(sk, rd) := pop_state skip readd pre in
+    let '(p2, q2) := pop_go false sk rd post in (p1 ++ p2, q1 ++ q2).
+Proof.
+  induction pre as [|r t IH]; intros post skip readd.
+  - cbn [app pop_go pop_state]. destruct (pop_go false skip readd post). reflexivity.
+  - cbn [app pop_go pop_state]. destruct r as [m u f tg og | m | m f op au si fo].
+    + destruct (existsb (N.eqb m) skip); rewrite IH;
+        destruct (pop_go false _ _ t) as [p1 q1]; destruct (pop_state _ _ t) as [sk rd];
+        destruct (pop_go false sk rd post) as [p2 q2]; reflexivity.
+    + rewrite IH. destruct (pop_go false _ _ t) as [p1 q1]; destruct (pop_state _ _ t) as [sk rd];
+        destruct (pop_go false sk rd post) as [p2 q2]; reflexivity.
+    + destruct (existsb (N.eqb m) readd); rewrite IH;
+        destruct (pop_go false _ _ t) as [p1 q1]; destruct (pop_state _ _ t) as [sk rd];
+        destruct (pop_go false sk rd post) as [p2 q2]; reflexivity.
+Qed.
+
+(* The queue pre ++ [exists of m] ++ post is popped by a flush that must not send EXPUNGE, and the exists of m is one
+   that is held back (an expunge of m in pre is held and m has not been put back before: m is in the skip set after
+   pre). Then nothing that changes the flags of m is popped from post: all of it stays queued, in its order, behind
+   that exists. *)
+Theorem held_readd_holds_later_fetches pre m u f tg og post p q :
+  pop_responders false (pre ++ RExists m u f tg og :: post) = (p, q) ->
+  existsb (N.eqb m) (fst (pop_state [] [] pre)) = true ->
+  exists p1 q1 p2 q2,
+    pop_responders false pre = (p1, q1) /\ p = p1 ++ p2 /\ q = q1 ++ RExists m u f tg og :: q2 /\
+    (forall r, In r p2 -> is_fetch_of m r = false) /\
+    filter (is_fetch_of m) q2 = filter (is_fetch_of m) post.
+Proof.
+  unfold pop_responders. rewrite pop_go_app. intros H Hin.
+  destruct (pop_go false [] [] pre) as [p1 q1]. destruct (pop_state [] [] pre) as [sk rd]. cbn [fst] in Hin.
+  cbn [pop_go] in H. rewrite Hin in H.
+  destruct (pop_go false (filter (fun x => negb (x =? m)) sk) (m :: rd) post) as [p2 q2] eqn:E.
+  injection H as <- <-. exists p1, q1, p2, q2. repeat split.
+  - intros r Hr. eapply (pop_readd_holds_fetches m post); [|exact E|exact Hr]. cbn [existsb]. rewrite N.eqb_refl. reflexivity.
+  - eapply (pop_readd_keeps_fetches m post); [|exact E]. cbn [existsb]. rewrite N.eqb_refl. reflexivity.
+Qed.
+
+(* the policy before the repair let the flag change overtake both: witness *)
+Lemma old_policy_fetch_overtakes :
+  pop_go_old [] [RExpunge 1; RExists 1 3 [] false false; RFetch 1 [5] FAdd false false false]
+  = ([RFetch 1 [5] FAdd false false false], [RExpunge 1; RExists 1 3 [] false false]).
+Proof. reflexivity. Qed.
 
 (* ---------- handle / run_responders never invent an EXPUNGE ---------- *)
 Lemma handle_expunge_only_from_rexpunge r s s' out :
@@ -311,7 +416,7 @@ Proof. induction l as [|a t IH]; [reflexivity|]. cbn [existsb filter]. destruct 
 Theorem flush_false_no_expunge st st' out :
   flush false st = FOk st' out -> forall x, In x out -> is_pexpunge x = false.
 Proof.
-  unfold flush, pop_responders. destruct (pop_go false [] (s_res st)) as [p q] eqn:E.
+  unfold flush, pop_responders. destruct (pop_go false [] [] (s_res st)) as [p q] eqn:E.
   destruct (run_responders p (s_snap st)) as [[s' o]|] eqn:R; [|discriminate].
   destruct (merge o) as [o'|] eqn:M; [|discriminate]. intros [= <- <-].
   apply no_expunge_filter. rewrite (merge_expunges _ _ M). apply no_expunge_filter.
@@ -321,7 +426,7 @@ Qed.
 Theorem flush_raw_false_no_expunge st st' out :
   flush_raw false st = Some (st', out) -> forall x, In x out -> is_pexpunge x = false.
 Proof.
-  unfold flush_raw, pop_responders. destruct (pop_go false [] (s_res st)) as [p q] eqn:E.
+  unfold flush_raw, pop_responders. destruct (pop_go false [] [] (s_res st)) as [p q] eqn:E.
   destruct (run_responders p (s_snap st)) as [[s' o]|] eqn:R; [|discriminate]. intros [= <- <-].
   eapply run_responders_no_expunge; [|exact R]. eapply pop_go_false_no_expunge; eauto.
 Qed.
@@ -336,10 +441,10 @@ Qed.
 Theorem flush_false_expunge_issued st st' out :
   flush false st = FOk st' out -> expunge_issued st' = expunge_issued st.
 Proof.
-  unfold flush, pop_responders. destruct (pop_go false [] (s_res st)) as [p q] eqn:E.
+  unfold flush, pop_responders. destruct (pop_go false [] [] (s_res st)) as [p q] eqn:E.
   destruct (run_responders p (s_snap st)) as [[s' o]|]; [|discriminate].
   destruct (merge o); [|discriminate]. intros [= <- _]. unfold expunge_issued. cbn [s_res].
-  pose proof (pop_go_false_keeps_expunges _ _ _ _ E) as K.
+  pose proof (pop_go_false_keeps_expunges _ _ _ _ _ E) as K.
   rewrite !existsb_filter_nonempty, K. reflexivity.
 Qed.
 
